@@ -1,4 +1,4 @@
-\* C08 quick: every scenario with at most 2 mutators in total, one representative per mutator class
+\* C08 thorough: the construct executed from inside a trap action with another caught signal pending, at most 2 mutators
 CONSTANTS
   MaxPre = 1
   MaxChild = 2
@@ -9,7 +9,7 @@ CONSTANTS
   Leaky = FALSE
   Alphabet <- CoreCmds
   Kinds <- AllKinds
-  Ctxs <- MainCtx
+  Ctxs <- TrapCtx
 INIT Init
 NEXT Next
 INVARIANTS NoForeignTrapAction EntryIsForkImage TrapRule SharedDescriptions Final Emit
